@@ -163,6 +163,17 @@ pub fn run_case(case: &Case) -> (Vec<(String, String)>, Info) {
     let gp = case.hist.ncfg.gp;
     let built = block_on(build_history(&case.hist));
     let table = BlockTable::from_blocks(&built.blocks);
+    // the history's own producer could not put its honestly produced block past the window edge
+    // on its own chain: the rebroadcast step of that block lost or created value (the node's
+    // supply check aborts) or producer and validator disagree about it
+    for (_, rb, rs) in &built.rejected_own {
+        if rb.id > gp + 1 {
+            v.push((
+                format!("C13|own_window_edge_block_fails|outcome={rs}"),
+                format!("block id {} produced honestly on a chain past the window edge ({} rebroadcast transactions) was not accepted by its own producer: {}", rb.id, rb.transactions.iter().filter(|t| t.transaction_type == TransactionType::ATR).count(), rs),
+            ));
+        }
+    }
     let mut d = Deliverer::new(Node::new(case.hist.ncfg, 6), 10_000);
     let mut probed: BTreeSet<UKey> = BTreeSet::new();
     for b in &built.blocks {
@@ -171,6 +182,16 @@ pub fn run_case(case: &Case) -> (Vec<(String, String)>, Info) {
         }
         let outs = d.deliver(b);
         if d.dead {
+            // the node aborted (its own supply check, or any other panic) while an honestly produced
+            // block past the window edge was put directly on its tip: value went missing or appeared
+            // in the rebroadcast step. Aborts during reorganisations are judged by C02 / C03.
+            if let Some(o) = outs.first() {
+                if let crate::deliver::StepOutcome::Panicked(site, msg) = &o.outcome {
+                    if b.id > gp + 1 && o.tip_before.1 == b.previous_block_hash && outs.len() == 1 {
+                        v.push((format!("C13|node_aborts_on_window_edge_block|site={site}"), format!("the node aborted at {} ({}) when block id {} (honestly produced, {} rebroadcast transactions) was put on its tip", site, msg, b.id, b.transactions.iter().filter(|t| t.transaction_type == TransactionType::ATR).count())));
+                    }
+                }
+            }
             break;
         }
         // every block of these histories is honestly produced on its branch: none may be refused,
@@ -404,7 +425,7 @@ pub fn arb_case(max_blocks: usize) -> impl Strategy<Value = Case> {
 }
 
 pub fn run(ctx: &mut Ctx) {
-    ctx.rule = "honest histories of up to 40 blocks with gp in {4,5,6,8} (two and more window wraps), fee-paying transactions (fee-per-byte > 0 so that tiny outputs become dust), both genesis treasuries (payout multiplier 1 and > 1, 5% cap), occasional forks (reorganisations across the window edge), delivered to a node; for every block that becomes part of the longest chain at height h > gp+1, with U = outputs of the on-chain block h-gp-1 still unspent in the independent reference ledger just before h: every rebroadcast transaction refers to exactly one member of U (same coordinates), none twice, none outside U, pays the same owner an ATR-typed output <= value plus payout, the payouts sum to the treasury debit, and rebroadcast fees + value of the members of U that are not rebroadcast == total_fees_atr; afterwards a spend of an output older than the window (probed with real signed transactions through the pool entry) is refused. evaluations = window-edge blocks checked. non-trivial = a block whose U contains both a rebroadcast and a dust output; distinct by case digest".into();
+    ctx.rule = "honest histories of up to 40 blocks with gp in {4,5,6,8} (two and more window wraps), fee-paying transactions (fee-per-byte > 0 so that tiny outputs become dust), both genesis treasuries (payout multiplier 1 and > 1, 5% cap), occasional forks (reorganisations across the window edge), delivered to a node; for every block that becomes part of the longest chain at height h > gp+1, with U = outputs of the on-chain block h-gp-1 still unspent in the independent reference ledger just before h: every rebroadcast transaction refers to exactly one member of U (same coordinates), none twice, none outside U, pays the same owner an ATR-typed output <= value plus payout, the payouts sum to the treasury debit, and rebroadcast fees + value of the members of U that are not rebroadcast == total_fees_atr; the node must not abort when such a block is put directly on its tip, and the history's own producer must accept its own block past the window edge; afterwards a spend of an output older than the window (probed with real signed transactions through the pool entry) is refused. evaluations = window-edge blocks checked. non-trivial = a block whose U contains both a rebroadcast and a dust output; distinct by case digest".into();
     ctx.assumptions.push("NFT groups are created (one generated transaction in ten, laid out like Wallet::create_bound_transaction) and rebroadcast; NFT transfers are not generated.".into());
     let cases = ctx.tier.pick(300u32, 12_000);
     pbt_run(ctx, "window_edge", cases, arb_case(40), |c, case, counting| eval(c, case, counting));
